@@ -95,6 +95,9 @@ impl ManiaGradualPerformance {
     /// `n=1` will process 2, and so on.
     #[allow(clippy::missing_panics_doc)]
     pub fn nth(&mut self, state: ManiaScoreState, n: usize) -> Option<ManiaPerformanceAttributes> {
+        // `Iterator::nth` returns `None` if fewer than `n + 1` objects remain
+        let n = n.min(self.difficulty.len().saturating_sub(1));
+
         let performance = self
             .difficulty
             .nth(n)?
